@@ -1,44 +1,639 @@
 (* C03 — Every block or operation the spec rejects is rejected, without panicking.
    The executable Spec is the verdict oracle on every corrupted block of the generator's C03 stream: whenever the Spec
-   rejects, zrnt must return an error (never accept, never panic).  Theorems: which blocks the Spec rejects. *)
-From Coq Require Import NArith List.
-From V Require Import Ssz.SszCore Beacon.Config Beacon.Schemas Beacon.State Beacon.Spec.Helpers Beacon.Spec.Block
-  Beacon.Spec.Transition Beacon.Proofs.TransitionRules.
+   rejects, zrnt must return an error (never accept, never panic).  Theorems here make precise, for ALL environments (hash,
+   BLS and engine oracles with no assumed law), forks, states and block values, WHICH blocks and operations the Spec rejects:
+   an exact characterisation of acceptance per check (`_iff`), the single causes of rejection (`_rejects`), and for every
+   signature check the message handed to the BLS oracle (domain type, fork version, genesis_validators_root, object root).
+   That zrnt returns an error (and no panic) exactly then is, per operation, the `_refines` theorems of Properties/C01.v
+   (their right-hand side maps Spec `None` to `Err`) and the correspondence on corrupted blocks.
+   PARTIAL: `reject_refines` for the whole block (composition of the per-operation theorems) is not assembled; panic-freedom on
+   arbitrary decodable bytes is tied by the correspondence stream and the index audit in design/C01-C03-refine.md. *)
+
+From Coq Require Import String.
+From Coq Require Import NArith ZArith List Bool.
+From RecordUpdate Require Import RecordSet.
+From V Require Import Base.U64 Base.Outcome Ssz.SszCore Beacon.Config Beacon.Schemas Beacon.State
+  Beacon.Spec.Helpers Beacon.Spec.Epoch Beacon.Spec.Block Beacon.Spec.Transition Beacon.Impl.BlockOps
+  Beacon.Proofs.TransitionRules
+  Beacon.Refine.BlockLemmas Beacon.Refine.RejectRules Beacon.Refine.BlockEpc Beacon.Refine.BlockFixtures
+  Beacon.Refine.BlockProposer Beacon.Refine.BlockSyncRefine Beacon.Refine.BlockSyncWitness Beacon.Refine.BlockExitRefine
+  Beacon.Refine.BlockSlashRefine Beacon.Refine.BlockAttRefine Beacon.Refine.BlockDepositRefine
+  Beacon.Refine.BlockWithdrawRefine Beacon.Refine.BlockHeaderRefine Beacon.Refine.BlockAttSlashRefine
+  Beacon.Refine.BlockNonvacuous Beacon.Refine.RejectNonvacuous.
+Import ListNotations RecordSetNotations.
+Local Open Scope string_scope.
+Local Open Scope list_scope.
 Local Open Scope N_scope.
 
-Theorem C03_bad_block_signature_rejected : forall E f st bf sb f1 st1,
-  process_slots E f st (vuint (vfield (vfield sb 0) 0)) = Some (f1, st1) ->
-  verify_block_signature E f1 st1 sb = false ->
-  state_transition E f st bf sb true = None.
-Proof. exact bad_block_signature_rejected. Qed.
-Print Assumptions C03_bad_block_signature_rejected.
 
-(* cross-fork replay: a block of another fork than the state is in at the block's slot *)
-Theorem C03_wrong_fork_block_rejected : forall E f st bf sb validate f1 st1,
-  process_slots E f st (vuint (vfield (vfield sb 0) 0)) = Some (f1, st1) ->
-  fork_idx f1 <> fork_idx bf -> state_transition E f st bf sb validate = None.
-Proof. exact wrong_fork_block_rejected. Qed.
-Print Assumptions C03_wrong_fork_block_rejected.
+(* ===================== state_transition: wrong slot, fork, signature, state root (common.StateTransition) ===================== *)
 
-Theorem C03_old_slot_rejected : forall E f st target, target <= slot st -> process_slots E f st target = None.
+(* a block for a slot that is not in the future of the state *)
+Theorem C03_old_slot_rejected :
+  forall (E : Env) (f : fork) (st : BeaconState) (target : N),
+    target <= slot st -> process_slots E f st target = None.
 Proof. exact process_slots_past_rejected. Qed.
 Print Assumptions C03_old_slot_rejected.
 
+(* cross-fork replay: a block of another fork than the state is in at the block's slot *)
+Theorem C03_wrong_fork_block_rejected :
+  forall (E : Env) (f : fork) (st : BeaconState) (bf : fork) (sb : value) (validate : bool) 
+      (f1 : fork) (st1 : BeaconState),
+    process_slots E f st (vuint (vfield (vfield sb 0) 0)) = Some (f1, st1) ->
+    fork_idx f1 <> fork_idx bf -> state_transition E f st bf sb validate = None.
+Proof. exact wrong_fork_block_rejected. Qed.
+Print Assumptions C03_wrong_fork_block_rejected.
+
+(* block signature that does not verify against the state after process_slots *)
+Theorem C03_bad_block_signature_rejected :
+  forall (E : Env) (f : fork) (st : BeaconState) (bf : fork) (sb : value) (f1 : fork) (st1 : BeaconState),
+    process_slots E f st (vuint (vfield (vfield sb 0) 0)) = Some (f1, st1) ->
+    verify_block_signature E f1 st1 sb = false -> state_transition E f st bf sb true = None.
+Proof. exact bad_block_signature_rejected. Qed.
+Print Assumptions C03_bad_block_signature_rejected.
+
 (* acceptance of the block signature means the BLS oracle approved exactly: proposer's key, the block root,
    DOMAIN_BEACON_PROPOSER, the state's fork version for the current epoch, this chain's genesis_validators_root *)
-Theorem C03_block_signature_message : forall E f st sb,
-  verify_block_signature E f st sb = true ->
-  exists proposer, nthN (validators st) (vuint (vfield (vfield sb 0) 1)) = Some proposer /\
-    bls_verify E (v_pubkey proposer)
-      (compute_signing_root E (htr E (BeaconBlockT (cfg E) f) (vfield sb 0))
-         (compute_domain E DOMAIN_BEACON_PROPOSER
-            (if get_current_epoch E st <? f_epoch (fork_rec st) then f_previous_version (fork_rec st) else f_current_version (fork_rec st))
-            (genesis_validators_root st)))
-      (vbytes (vfield sb 1)) = true.
+Theorem C03_block_signature_message :
+  forall (E : Env) (f : fork) (st : BeaconState) (sb : value),
+    verify_block_signature E f st sb = true ->
+    exists proposer : Validator,
+      nthN (validators st) (vuint (vfield (vfield sb 0) 1)) = Some proposer /\
+      bls_verify E (v_pubkey proposer)
+        (compute_signing_root E (htr E (BeaconBlockT (cfg E) f) (vfield sb 0))
+           (compute_domain E DOMAIN_BEACON_PROPOSER
+              (if get_current_epoch E st <? f_epoch (fork_rec st)
+               then f_previous_version (fork_rec st)
+               else f_current_version (fork_rec st)) (genesis_validators_root st))) 
+        (vbytes (vfield sb 1)) = true.
 Proof. exact block_signature_message. Qed.
 Print Assumptions C03_block_signature_message.
 
-Theorem C03_engine_refusal_rejects : forall E f st body,
-  (forall p vh r, engine_accepts E p vh r = false) -> process_execution_payload E f st body = None.
+(* with validate_result: proposer = the one the state AFTER process_slots computes, signature under get_domain of
+   that state, final state root = block.state_root *)
+Theorem C03_state_transition_sig :
+  forall (E : Env) (f : fork) (st : BeaconState) (bf : fork) (sb : value) (f' : fork) (st' : BeaconState),
+    let blk := vfield sb 0 in
+    state_transition E f st bf sb true = Some (f', st') ->
+    exists (st1 : BeaconState) (proposer : Validator),
+      process_slots E f st (vuint (vfield blk 0)) = Some (f', st1) /\
+      fork_idx f' = fork_idx bf /\
+      get_beacon_proposer_index E st1 = Some (vuint (vfield blk 1)) /\
+      nthN (validators st1) (vuint (vfield blk 1)) = Some proposer /\
+      bls_verify E (v_pubkey proposer)
+        (compute_signing_root E (htr E (BeaconBlockT (cfg E) f') blk)
+           (get_domain E st1 DOMAIN_BEACON_PROPOSER (get_current_epoch E st1))) (vbytes (vfield sb 1)) = true /\
+      process_block E f' st1 blk = Some st' /\ vbytes (vfield blk 3) = state_root E f' st'.
+Proof. exact state_transition_sig. Qed.
+Print Assumptions C03_state_transition_sig.
+
+(* each cause: other fork, bad signature, any rejection inside process_block, wrong state root *)
+Theorem C03_state_transition_rejects :
+  forall (E : Env) (f : fork) (st : BeaconState) (bf : fork) (sb : value),
+    let blk := vfield sb 0 in
+    (forall (f' : fork) (st1 : BeaconState),
+     process_slots E f st (vuint (vfield blk 0)) = Some (f', st1) ->
+     fork_idx f' <> fork_idx bf \/
+     verify_block_signature E f' st1 sb = false \/
+     process_block E f' st1 blk = None \/
+     (forall st' : BeaconState,
+      process_block E f' st1 blk = Some st' -> vbytes (vfield blk 3) <> state_root E f' st')) ->
+    state_transition E f st bf sb true = None.
+Proof. exact state_transition_rejects. Qed.
+Print Assumptions C03_state_transition_rejects.
+
+(* ===================== block header: slot, parent, proposer, slashed proposer (common.ProcessHeader) ===================== *)
+
+(* exact rule *)
+Theorem C03_process_block_header_iff :
+  forall (E : Env) (f : fork) (st : BeaconState) (blk : value) (st' : BeaconState),
+    process_block_header E f st blk = Some st' <->
+    vuint (vfield blk 0) = slot st /\
+    h_slot (latest_block_header st) < vuint (vfield blk 0) /\
+    get_beacon_proposer_index E st = Some (vuint (vfield blk 1)) /\
+    vbytes (vfield blk 2) = htr E BeaconBlockHeaderT (header_to_value (latest_block_header st)) /\
+    (exists proposer : Validator,
+       nthN (validators st) (vuint (vfield blk 1)) = Some proposer /\ v_slashed proposer = false) /\
+    st' = header_after E f st blk.
+Proof. exact process_block_header_iff. Qed.
+Print Assumptions C03_process_block_header_iff.
+
+(* each single cause *)
+Theorem C03_process_block_header_rejects :
+  forall (E : Env) (f : fork) (st : BeaconState) (blk : value),
+    vuint (vfield blk 0) <> slot st \/
+    vuint (vfield blk 0) <= h_slot (latest_block_header st) \/
+    get_beacon_proposer_index E st <> Some (vuint (vfield blk 1)) \/
+    vbytes (vfield blk 2) <> htr E BeaconBlockHeaderT (header_to_value (latest_block_header st)) \/
+    (forall p : Validator, nthN (validators st) (vuint (vfield blk 1)) = Some p -> v_slashed p = true) ->
+    process_block_header E f st blk = None.
+Proof. exact process_block_header_rejects. Qed.
+Print Assumptions C03_process_block_header_rejects.
+
+(* ===================== randao reveal (phase0.ProcessRandaoReveal) ===================== *)
+
+(* exact rule: the reveal is the proposer's signature over the epoch under DOMAIN_RANDAO *)
+Theorem C03_process_randao_iff :
+  forall (E : Env) (f : fork) (st : BeaconState) (body : value) (st' : BeaconState),
+    let epoch := get_current_epoch E st in
+    let reveal := vbytes (body_get E f body "randao_reveal") in
+    process_randao E f st body = Some st' <->
+    (exists (p : N) (proposer : Validator),
+       get_beacon_proposer_index E st = Some p /\
+       nthN (validators st) p = Some proposer /\
+       bls_verify E (v_pubkey proposer)
+         (compute_signing_root E (htr E u64 (VUint epoch)) (get_domain E st DOMAIN_RANDAO epoch)) reveal = true /\
+       st' =
+       st <| randao_mixes :=
+       setN (randao_mixes st) (epoch mod EPOCHS_PER_HISTORICAL_VECTOR (cfg E))
+         (xor_bytes (get_randao_mix E st epoch) (Hash E reveal)) |>).
+Proof. exact process_randao_iff. Qed.
+Print Assumptions C03_process_randao_iff.
+
+(* ===================== proposer slashing: not slashable, same header, wrong key (phase0.ProcessProposerSlashing) ===================== *)
+
+(* exact rule *)
+Theorem C03_process_proposer_slashing_iff :
+  forall (E : Env) (f : fork) (st : BeaconState) (ps : value) (st' : BeaconState),
+    let sh1 := vfield ps 0 in
+    let sh2 := vfield ps 1 in
+    let h1 := vfield sh1 0 in
+    let h2 := vfield sh2 0 in
+    let pi := vuint (vfield h1 1) in
+    process_proposer_slashing E f st ps = Some st' <->
+    vuint (vfield h1 0) = vuint (vfield h2 0) /\
+    vuint (vfield h1 1) = vuint (vfield h2 1) /\
+    h1 <> h2 /\
+    (exists proposer : Validator,
+       nthN (validators st) pi = Some proposer /\
+       is_slashable_validator proposer (get_current_epoch E st) = true /\
+       header_sig_ok E st (v_pubkey proposer) sh1 /\
+       header_sig_ok E st (v_pubkey proposer) sh2 /\ slash_validator E f st pi None = Some st').
+Proof. exact process_proposer_slashing_iff. Qed.
+Print Assumptions C03_process_proposer_slashing_iff.
+
+(* slashable = not slashed, activated, not yet withdrawable *)
+Theorem C03_is_slashable_validator_iff :
+  forall (v : Validator) (e : N),
+    is_slashable_validator v e = true <->
+    v_slashed v = false /\ v_activation_epoch v <= e < v_withdrawable_epoch v.
+Proof. exact is_slashable_validator_iff. Qed.
+Print Assumptions C03_is_slashable_validator_iff.
+
+(* ===================== attester slashing: not a double/surround vote, malformed indexed attestation, nobody slashable (phase0.ProcessAttesterSlashing) ===================== *)
+
+(* double vote or surround vote *)
+Theorem C03_is_slashable_attestation_data_iff :
+  forall d1 d2 : AttData,
+    is_slashable_attestation_data d1 d2 = true <->
+    d1 <> d2 /\ cp_epoch (ad_target d1) = cp_epoch (ad_target d2) \/
+    cp_epoch (ad_source d1) < cp_epoch (ad_source d2) /\ cp_epoch (ad_target d2) < cp_epoch (ad_target d1).
+Proof. exact is_slashable_attestation_data_iff. Qed.
+Print Assumptions C03_is_slashable_attestation_data_iff.
+
+(* non-empty, strictly sorted (hence no duplicate), known indices, aggregate signature under
+   DOMAIN_BEACON_ATTESTER at the target epoch *)
+Theorem C03_is_valid_indexed_attestation_iff :
+  forall (E : Env) (st : BeaconState) (ia : value),
+    let idx := map vuint (vseq (vfield ia 0)) in
+    let data := vfield ia 1 in
+    is_valid_indexed_attestation E st ia = true <->
+    idx <> [] /\
+    strictly_sorted idx = true /\
+    (exists pubkeys : list bytes,
+       all_some (map (fun i : N => option_map v_pubkey (nthN (validators st) i)) idx) = Some pubkeys /\
+       bls_fast_aggregate_verify E pubkeys
+         (compute_signing_root E (htr E AttestationDataT data)
+            (get_domain E st DOMAIN_BEACON_ATTESTER (cp_epoch (ad_target data)))) (vbytes (vfield ia 2)) = true).
+Proof. exact is_valid_indexed_attestation_iff. Qed.
+Print Assumptions C03_is_valid_indexed_attestation_iff.
+
+(* exact rule; slash_each walks the sorted intersection *)
+Theorem C03_process_attester_slashing_iff :
+  forall (E : Env) (f : fork) (st : BeaconState) (asl : value) (st' : BeaconState),
+    let a1 := vfield asl 0 in
+    let a2 := vfield asl 1 in
+    process_attester_slashing E f st asl = Some st' <->
+    is_slashable_attestation_data (vfield a1 1) (vfield a2 1) = true /\
+    is_valid_indexed_attestation E st a1 = true /\
+    is_valid_indexed_attestation E st a2 = true /\
+    slash_each E f st false (slashing_intersection asl) = Some (st', true).
+Proof. exact process_attester_slashing_iff. Qed.
+Print Assumptions C03_process_attester_slashing_iff.
+
+(* at least one index of the sorted intersection is slashable in the pre-state *)
+Theorem C03_process_attester_slashing_needs_slashable :
+  forall (E : Env) (f : fork) (st : BeaconState) (asl : value) (st' : BeaconState),
+    process_attester_slashing E f st asl = Some st' ->
+    exists (i : N) (v : Validator),
+      In i (slashing_intersection asl) /\
+      nthN (validators st) i = Some v /\ is_slashable_validator v (get_current_epoch E st) = true.
+Proof. exact process_attester_slashing_needs_slashable. Qed.
+Print Assumptions C03_process_attester_slashing_needs_slashable.
+
+(* each single cause *)
+Theorem C03_process_attester_slashing_rejects :
+  forall (E : Env) (f : fork) (st : BeaconState) (asl : value),
+    let a1 := vfield asl 0 in
+    let a2 := vfield asl 1 in
+    is_slashable_attestation_data (vfield a1 1) (vfield a2 1) = false \/
+    is_valid_indexed_attestation E st a1 = false \/
+    is_valid_indexed_attestation E st a2 = false \/
+    (forall i : N, In i (slashing_intersection asl) -> slashable_in E st i = false) ->
+    process_attester_slashing E f st asl = None.
+Proof. exact process_attester_slashing_rejects. Qed.
+Print Assumptions C03_process_attester_slashing_rejects.
+
+(* ===================== attestation: inclusion window, target, committee index, bits length, source, signature (phase0/altair/deneb ProcessAttestation) ===================== *)
+
+(* everything acceptance implies, all forks *)
+Theorem C03_process_attestation_accepts :
+  forall (E : Env) (f : fork) (st : BeaconState) (att : value) (st' : BeaconState),
+    let bits := vbits (vfield att 0) in
+    let data := vfield att 1 in
+    let tgt := ad_target data in
+    process_attestation E f st att = Some st' ->
+    (cp_epoch tgt = get_previous_epoch E st \/ cp_epoch tgt = get_current_epoch E st) /\
+    cp_epoch tgt = compute_epoch_at_slot E (ad_slot data) /\
+    ad_slot data + MIN_ATTESTATION_INCLUSION_DELAY (cfg E) <= slot st /\
+    (fork_ge f Deneb = true \/ slot st <= ad_slot data + SLOTS_PER_EPOCH (cfg E)) /\
+    ad_index data < get_committee_count_per_slot E st (cp_epoch tgt) /\
+    (exists committee : list N,
+       get_beacon_committee E st (ad_slot data) (ad_index data) = Some committee /\
+       Datatypes.length bits = Datatypes.length committee) /\
+    ad_source data = expected_source E st data /\
+    (exists ia : value,
+       get_indexed_attestation E st att = Some ia /\ is_valid_indexed_attestation E st ia = true).
+Proof. exact process_attestation_accepts. Qed.
+Print Assumptions C03_process_attestation_accepts.
+
+(* each single cause; the upper bound of the window is dropped from Deneb on *)
+Theorem C03_process_attestation_rejects :
+  forall (E : Env) (f : fork) (st : BeaconState) (att : value),
+    let bits := vbits (vfield att 0) in
+    let data := vfield att 1 in
+    let tgt := ad_target data in
+    cp_epoch tgt <> get_previous_epoch E st /\ cp_epoch tgt <> get_current_epoch E st \/
+    cp_epoch tgt <> compute_epoch_at_slot E (ad_slot data) \/
+    slot st < ad_slot data + MIN_ATTESTATION_INCLUSION_DELAY (cfg E) \/
+    fork_ge f Deneb = false /\ ad_slot data + SLOTS_PER_EPOCH (cfg E) < slot st \/
+    get_committee_count_per_slot E st (cp_epoch tgt) <= ad_index data \/
+    (forall committee : list N,
+     get_beacon_committee E st (ad_slot data) (ad_index data) = Some committee ->
+     Datatypes.length bits <> Datatypes.length committee) \/
+    ad_source data <> expected_source E st data \/
+    (forall ia : value,
+     get_indexed_attestation E st att = Some ia -> is_valid_indexed_attestation E st ia = false) ->
+    process_attestation E f st att = None.
+Proof. exact process_attestation_rejects. Qed.
+Print Assumptions C03_process_attestation_rejects.
+
+(* ===================== deposits: Merkle proof, count; an invalid proof of possession is NOT a rejection (phase0.ProcessDeposit, ProcessDeposits) ===================== *)
+
+(* accepted iff the branch of depth 33 at eth1_deposit_index proves the deposit data against
+   eth1_data.deposit_root *)
+Theorem C03_process_deposit_iff :
+  forall (E : Env) (f : fork) (st : BeaconState) (dep : value) (st' : BeaconState),
+    let data := vfield dep 1 in
+    process_deposit E f st dep = Some st' <->
+    deposit_proof_ok E st dep /\
+    st' =
+    apply_deposit E f (st <| eth1_deposit_index := eth1_deposit_index st + 1 |>) (vbytes (vfield data 0))
+      (vbytes (vfield data 1)) (vuint (vfield data 2)) (vbytes (vfield data 3)).
+Proof. exact process_deposit_iff. Qed.
+Print Assumptions C03_process_deposit_iff.
+
+(* top-up of a known pubkey: no signature check *)
+Theorem C03_apply_deposit_known :
+  forall (E : Env) (f : fork) (st : BeaconState) (pubkey wc : bytes) (amount : N) (sig : bytes) (i : N),
+    find_pubkey pubkey (validators st) 0 = Some i ->
+    apply_deposit E f st pubkey wc amount sig = increase_balance st i amount.
+Proof. exact apply_deposit_known. Qed.
+Print Assumptions C03_apply_deposit_known.
+
+(* new pubkey, valid proof of possession: appended *)
+Theorem C03_apply_deposit_new_valid :
+  forall (E : Env) (f : fork) (st : BeaconState) (pubkey wc : bytes) (amount : N) (sig : bytes),
+    find_pubkey pubkey (validators st) 0 = None ->
+    deposit_sig_ok E pubkey wc amount sig = true ->
+    apply_deposit E f st pubkey wc amount sig = add_validator_to_registry E f st pubkey wc amount.
+Proof. exact apply_deposit_new_valid. Qed.
+Print Assumptions C03_apply_deposit_new_valid.
+
+(* new pubkey, invalid proof of possession: state unchanged *)
+Theorem C03_apply_deposit_new_invalid_skipped :
+  forall (E : Env) (f : fork) (st : BeaconState) (pubkey wc : bytes) (amount : N) (sig : bytes),
+    find_pubkey pubkey (validators st) 0 = None ->
+    deposit_sig_ok E pubkey wc amount sig = false -> apply_deposit E f st pubkey wc amount sig = st.
+Proof. exact apply_deposit_new_invalid_skipped. Qed.
+Print Assumptions C03_apply_deposit_new_invalid_skipped.
+
+(* ... and the deposit is still accepted (index advanced) *)
+Theorem C03_process_deposit_invalid_pop_not_rejected :
+  forall (E : Env) (f : fork) (st : BeaconState) (dep : value),
+    let data := vfield dep 1 in
+    deposit_proof_ok E st dep ->
+    find_pubkey (vbytes (vfield data 0)) (validators st) 0 = None ->
+    deposit_sig_ok E (vbytes (vfield data 0)) (vbytes (vfield data 1)) (vuint (vfield data 2))
+      (vbytes (vfield data 3)) = false ->
+    process_deposit E f st dep = Some (st <| eth1_deposit_index := eth1_deposit_index st + 1 |>).
+Proof. exact process_deposit_invalid_pop_not_rejected. Qed.
+Print Assumptions C03_process_deposit_invalid_pop_not_rejected.
+
+(* `pubkey in validator_pubkeys` resolves to the FIRST index carrying it *)
+Theorem C03_find_pubkey_spec :
+  forall (pk : bytes) (vs : list Validator) (base r : N),
+    find_pubkey pk vs base = Some r <->
+    (exists (k : nat) (v : Validator),
+       r = base + N.of_nat k /\
+       nth_error vs k = Some v /\
+       v_pubkey v = pk /\
+       (forall (j : nat) (w : Validator), (j < k)%nat -> nth_error vs j = Some w -> v_pubkey w <> pk)).
+Proof. exact find_pubkey_spec. Qed.
+Print Assumptions C03_find_pubkey_spec.
+
+(* len(deposits) = min(MAX_DEPOSITS, deposit_count - eth1_deposit_index), checked subtraction *)
+Theorem C03_process_operations_deposit_count :
+  forall (E : Env) (f : fork) (st : BeaconState) (body : value) (st' : BeaconState),
+    process_operations E f st body = Some st' ->
+    N.of_nat (Datatypes.length (vseq (body_get E f body "deposits"))) =
+    N.min (MAX_DEPOSITS (cfg E)) (e_deposit_count (eth1_data st) - eth1_deposit_index st) /\
+    eth1_deposit_index st <= e_deposit_count (eth1_data st).
+Proof. exact process_operations_deposit_count. Qed.
+Print Assumptions C03_process_operations_deposit_count.
+
+(* wrong number of deposits, or deposit_count < eth1_deposit_index *)
+Theorem C03_process_operations_deposit_count_rejects :
+  forall (E : Env) (f : fork) (st : BeaconState) (body : value),
+    N.of_nat (Datatypes.length (vseq (body_get E f body "deposits"))) <>
+    N.min (MAX_DEPOSITS (cfg E)) (e_deposit_count (eth1_data st) - eth1_deposit_index st) \/
+    e_deposit_count (eth1_data st) < eth1_deposit_index st -> process_operations E f st body = None.
+Proof. exact process_operations_deposit_count_rejects. Qed.
+Print Assumptions C03_process_operations_deposit_count_rejects.
+
+(* zrnt's ProcessDeposits (repaired, /repo 9bd2c6a) returns an error in exactly these cases *)
+Theorem C03_process_deposits_count_rejects :
+  forall (E : Env) (f : fork) (st : BeaconState) (epc_of : BeaconState -> BlockEpc) (deps : list value),
+    N.of_nat (Datatypes.length deps) <>
+    N.min (MAX_DEPOSITS (cfg E)) (e_deposit_count (eth1_data st) - eth1_deposit_index st) \/
+    e_deposit_count (eth1_data st) < eth1_deposit_index st -> process_deposits_impl E f epc_of st deps = Err.
+Proof. exact process_deposits_count_rejects. Qed.
+Print Assumptions C03_process_deposits_count_rejects.
+
+(* ===================== voluntary exit: inactive, duplicated, too early, insufficiently aged, wrong key/domain/fork version (phase0/deneb ProcessVoluntaryExit) ===================== *)
+
+(* exact rule; exit_domain = get_domain(st, DOMAIN_VOLUNTARY_EXIT, exit.epoch) before Deneb, the fixed
+   CAPELLA_FORK_VERSION from Deneb on *)
+Theorem C03_process_voluntary_exit_iff :
+  forall (E : Env) (f : fork) (st : BeaconState) (sve : value) (st' : BeaconState),
+    let ve := vfield sve 0 in
+    let ve_epoch := vuint (vfield ve 0) in
+    let vi := vuint (vfield ve 1) in
+    let ce := get_current_epoch E st in
+    process_voluntary_exit E f st sve = Some st' <->
+    (exists v : Validator,
+       nthN (validators st) vi = Some v /\
+       v_activation_epoch v <= ce < v_exit_epoch v /\
+       v_exit_epoch v = FAR_FUTURE_EPOCH /\
+       ve_epoch <= ce /\
+       v_activation_epoch v + SHARD_COMMITTEE_PERIOD (cfg E) <= ce /\
+       bls_verify E (v_pubkey v)
+         (compute_signing_root E (htr E VoluntaryExitT ve) (exit_domain E f st ve_epoch))
+         (vbytes (vfield sve 1)) = true /\ initiate_validator_exit E st vi = Some st').
+Proof. exact process_voluntary_exit_iff. Qed.
+Print Assumptions C03_process_voluntary_exit_iff.
+
+(* each single cause *)
+Theorem C03_process_voluntary_exit_rejects :
+  forall (E : Env) (f : fork) (st : BeaconState) (sve : value),
+    let ve := vfield sve 0 in
+    let ve_epoch := vuint (vfield ve 0) in
+    let vi := vuint (vfield ve 1) in
+    let ce := get_current_epoch E st in
+    (forall v : Validator,
+     nthN (validators st) vi = Some v ->
+     ce < v_activation_epoch v \/
+     v_exit_epoch v <= ce \/
+     v_exit_epoch v <> FAR_FUTURE_EPOCH \/
+     ce < ve_epoch \/
+     ce < v_activation_epoch v + SHARD_COMMITTEE_PERIOD (cfg E) \/
+     bls_verify E (v_pubkey v) (compute_signing_root E (htr E VoluntaryExitT ve) (exit_domain E f st ve_epoch))
+       (vbytes (vfield sve 1)) = false) -> process_voluntary_exit E f st sve = None.
+Proof. exact process_voluntary_exit_rejects. Qed.
+Print Assumptions C03_process_voluntary_exit_rejects.
+
+(* ===================== BLS-to-execution change (capella.ProcessBLSToExecutionChange) ===================== *)
+
+(* exact rule; domain fixed to GENESIS_FORK_VERSION *)
+Theorem C03_process_bls_to_execution_change_iff :
+  forall (E : Env) (st : BeaconState) (sc : value) (st' : BeaconState),
+    let ch := vfield sc 0 in
+    let vi := vuint (vfield ch 0) in
+    let from_pk := vbytes (vfield ch 1) in
+    let to_addr := vbytes (vfield ch 2) in
+    process_bls_to_execution_change E st sc = Some st' <->
+    (exists v : Validator,
+       nthN (validators st) vi = Some v /\
+       nth 0 (v_withdrawal_credentials v) 1 = BLS_WITHDRAWAL_PREFIX /\
+       skipn 1 (v_withdrawal_credentials v) = skipn 1 (Hash E from_pk) /\
+       bls_verify E from_pk
+         (compute_signing_root E (htr E BLSToExecutionChangeT ch)
+            (compute_domain E DOMAIN_BLS_TO_EXECUTION_CHANGE (GENESIS_FORK_VERSION (cfg E))
+               (genesis_validators_root st))) (vbytes (vfield sc 1)) = true /\
+       st' =
+       st <| validators :=
+       updN (validators st) vi
+         (fun v0 : Validator =>
+          v0 <| v_withdrawal_credentials := (ETH1_ADDRESS_WITHDRAWAL_PREFIX :: repeat 0 11) ++ to_addr |>) |>).
+Proof. exact process_bls_to_execution_change_iff. Qed.
+Print Assumptions C03_process_bls_to_execution_change_iff.
+
+(* ===================== sync aggregate signature (altair.ProcessSyncAggregate) ===================== *)
+
+(* the message is the signing root of the previous slot's block root under DOMAIN_SYNC_COMMITTEE at the previous
+   slot's epoch; no participants require the infinity signature *)
+Theorem C03_process_sync_aggregate_sig :
+  forall (E : Env) (st : BeaconState) (sa : value) (st' : BeaconState),
+    process_sync_aggregate E st sa = Some st' ->
+    exists root : bytes,
+      get_block_root_at_slot E st (sync_previous_slot st) = Some root /\
+      (sync_participants st sa = [] -> vbytes (vfield sa 1) = G2_POINT_AT_INFINITY) /\
+      (sync_participants st sa <> [] ->
+       bls_fast_aggregate_verify E (sync_participants st sa) (sync_signing_root E st root)
+         (vbytes (vfield sa 1)) = true).
+Proof. exact process_sync_aggregate_sig. Qed.
+Print Assumptions C03_process_sync_aggregate_sig.
+
+(* each single cause *)
+Theorem C03_process_sync_aggregate_rejects :
+  forall (E : Env) (st : BeaconState) (sa : value),
+    get_block_root_at_slot E st (sync_previous_slot st) = None \/
+    sync_participants st sa = [] /\ vbytes (vfield sa 1) <> G2_POINT_AT_INFINITY \/
+    sync_participants st sa <> [] /\
+    (forall root : bytes,
+     get_block_root_at_slot E st (sync_previous_slot st) = Some root ->
+     bls_fast_aggregate_verify E (sync_participants st sa) (sync_signing_root E st root) (vbytes (vfield sa 1)) =
+     false) -> process_sync_aggregate E st sa = None.
+Proof. exact process_sync_aggregate_rejects. Qed.
+Print Assumptions C03_process_sync_aggregate_rejects.
+
+(* ===================== withdrawals and execution payload (capella.ProcessWithdrawals, bellatrix/capella/deneb ProcessExecutionPayload) ===================== *)
+
+(* accepted iff the payload's withdrawals equal get_expected_withdrawals element-wise *)
+Theorem C03_process_withdrawals_iff :
+  forall (E : Env) (f : fork) (st : BeaconState) (payload : value) (st' : BeaconState),
+    process_withdrawals E f st payload = Some st' <->
+    vseq (pl_get E f payload "withdrawals") = map withdrawal_to_value (get_expected_withdrawals E st) /\
+    st' = withdrawals_applied E st.
+Proof. exact process_withdrawals_iff. Qed.
+Print Assumptions C03_process_withdrawals_iff.
+
+(* parent hash (skipped only before Capella while the merge is incomplete), prev_randao, timestamp, blob
+   commitment count, engine verdict *)
+Theorem C03_process_execution_payload_iff :
+  forall (E : Env) (f : fork) (st : BeaconState) (body : value) (st' : BeaconState),
+    let payload := body_get E f body "execution_payload" in
+    process_execution_payload E f st body = Some st' <->
+    (fork_ge f Capella = false /\ is_merge_transition_complete E f st = false \/
+     vbytes (pl_get E f payload "parent_hash") =
+     vbytes (vget (HeaderT E f) (latest_execution_payload_header st) "block_hash")) /\
+    vbytes (pl_get E f payload "prev_randao") = get_randao_mix E st (get_current_epoch E st) /\
+    vuint (pl_get E f payload "timestamp") = compute_timestamp_at_slot E st (slot st) /\
+    N.of_nat (Datatypes.length (payload_commitments E f body)) <=
+    (if fork_ge f Deneb then MAX_BLOBS_PER_BLOCK (cfg E) else 0) /\
+    engine_accepts E payload (map (kzg_commitment_to_versioned_hash E) (payload_commitments E f body))
+      (h_parent_root (latest_block_header st)) = true /\
+    st' = st <| latest_execution_payload_header := payload_to_header E f payload |>.
+Proof. exact process_execution_payload_iff. Qed.
+Print Assumptions C03_process_execution_payload_iff.
+
+(* corollary kept from Beacon/Proofs/TransitionRules.v (subsumed by the iff above): an engine that refuses
+   everything rejects every payload *)
+Theorem C03_engine_refusal_rejects :
+  forall (E : Env) (f : fork) (st : BeaconState) (body : value),
+    (forall (p : value) (vh : list bytes) (r : bytes), engine_accepts E p vh r = false) ->
+    process_execution_payload E f st body = None.
 Proof. exact engine_refusal_rejects. Qed.
 Print Assumptions C03_engine_refusal_rejects.
+
+(* ===================== composition: a rejection anywhere rejects the block ===================== *)
+
+(* the first rejected operation of a list rejects the list (duplicates: the second copy meets the state changed
+   by the first) *)
+Theorem C03_for_ops_reject_any :
+  forall (ops1 : list value) (op : value) (ops2 : list value)
+      (fn : BeaconState -> value -> option BeaconState) (st st1 : BeaconState),
+    for_ops ops1 fn st = Some st1 -> fn st1 op = None -> for_ops (ops1 ++ op :: ops2) fn st = None.
+Proof. exact for_ops_reject_any. Qed.
+Print Assumptions C03_for_ops_reject_any.
+
+(* operations in spec order *)
+Theorem C03_process_operations_iff :
+  forall (E : Env) (f : fork) (st : BeaconState) (body : value) (st' : BeaconState),
+    let deposits := vseq (body_get E f body "deposits") in
+    process_operations E f st body = Some st' <->
+    N.of_nat (Datatypes.length deposits) =
+    N.min (MAX_DEPOSITS (cfg E)) (e_deposit_count (eth1_data st) - eth1_deposit_index st) /\
+    eth1_deposit_index st <= e_deposit_count (eth1_data st) /\
+    (exists s1 s2 s3 s4 s5 : BeaconState,
+       for_ops (vseq (body_get E f body "proposer_slashings")) (process_proposer_slashing E f) st = Some s1 /\
+       for_ops (vseq (body_get E f body "attester_slashings")) (process_attester_slashing E f) s1 = Some s2 /\
+       for_ops (vseq (body_get E f body "attestations")) (process_attestation E f) s2 = Some s3 /\
+       for_ops deposits (process_deposit E f) s3 = Some s4 /\
+       for_ops (vseq (body_get E f body "voluntary_exits")) (process_voluntary_exit E f) s4 = Some s5 /\
+       (if fork_ge f Capella
+        then
+         for_ops (vseq (body_get E f body "bls_to_execution_changes")) (process_bls_to_execution_change E) s5
+        else Some s5) = Some st').
+Proof. exact process_operations_iff. Qed.
+Print Assumptions C03_process_operations_iff.
+
+(* stages in spec order *)
+Theorem C03_process_block_iff :
+  forall (E : Env) (f : fork) (st : BeaconState) (blk : value) (st' : BeaconState),
+    let body := vfield blk 4 in
+    process_block E f st blk = Some st' <->
+    (exists s1 s2 s3 s4 : BeaconState,
+       process_block_header E f st blk = Some s1 /\
+       payload_stage E f s1 body = Some s2 /\
+       process_randao E f s2 body = Some s3 /\
+       process_operations E f (process_eth1_data E f s3 body) body = Some s4 /\
+       (if fork_ge f Altair then process_sync_aggregate E s4 (body_get E f body "sync_aggregate") else Some s4) =
+       Some st').
+Proof. exact process_block_iff. Qed.
+Print Assumptions C03_process_block_iff.
+
+(* a rejection by any stage rejects the block *)
+Theorem C03_process_block_rejects :
+  forall (E : Env) (f : fork) (st : BeaconState) (blk : value),
+    let body := vfield blk 4 in
+    process_block_header E f st blk = None \/
+    (exists s1 : BeaconState, process_block_header E f st blk = Some s1 /\ payload_stage E f s1 body = None) \/
+    (exists s1 s2 : BeaconState,
+       process_block_header E f st blk = Some s1 /\
+       payload_stage E f s1 body = Some s2 /\ process_randao E f s2 body = None) \/
+    (exists s1 s2 s3 : BeaconState,
+       process_block_header E f st blk = Some s1 /\
+       payload_stage E f s1 body = Some s2 /\
+       process_randao E f s2 body = Some s3 /\
+       process_operations E f (process_eth1_data E f s3 body) body = None) \/
+    (exists s1 s2 s3 s4 : BeaconState,
+       process_block_header E f st blk = Some s1 /\
+       payload_stage E f s1 body = Some s2 /\
+       process_randao E f s2 body = Some s3 /\
+       process_operations E f (process_eth1_data E f s3 body) body = Some s4 /\
+       fork_ge f Altair = true /\ process_sync_aggregate E s4 (body_get E f body "sync_aggregate") = None) ->
+    process_block E f st blk = None.
+Proof. exact process_block_rejects. Qed.
+Print Assumptions C03_process_block_rejects.
+
+(* ===================== signed under a different domain, fork version or chain ===================== *)
+
+(* get_domain = compute_domain of the state's fork version at that epoch and its genesis_validators_root *)
+Theorem C03_get_domain_shape :
+  forall (E : Env) (st : BeaconState) (dt : bytes) (epoch : N),
+    get_domain E st dt epoch = compute_domain E dt (fork_version_at st epoch) (genesis_validators_root st).
+Proof. exact get_domain_shape. Qed.
+Print Assumptions C03_get_domain_shape.
+
+(* for EVERY signature check of the transition, acceptance implies the BLS oracle approved exactly the spec's
+   (key, object root, domain type, fork version, genesis_validators_root) *)
+Theorem C03_cross_domain_rejected_shape :
+  forall E : Env, cross_domain_shape E.
+Proof. exact cross_domain_rejected_shape. Qed.
+Print Assumptions C03_cross_domain_rejected_shape.
+
+(* ===================== PINNED SNAPSHOT (before fix: commit 9bd2c6a): _refuted witness ===================== *)
+
+(* phase0.ProcessDeposits of the snapshot accepted 16 provable deposits in a state with deposit_count 3 <
+   eth1_deposit_index 5 (uint64 wrap) which the spec rejects for every block; the repaired code refuses
+   (reproduced on the Go code: design/C01-C03-refine.md) *)
+Theorem C03_deposit_count_underflow_refuted :
+  (forall (f : fork) (body : value), process_operations blk_env f dw_state body = None) /\
+    option_map (fun s : BeaconState => (balances s, eth1_deposit_index s))
+      match process_deposits_orig blk_env Altair (spec_epc blk_env) dw_state dw_deposits with
+      | Ok s => Some s
+      | _ => None
+      end = Some ([48 * GWEI_ETH], 21) /\
+    process_deposits_impl blk_env Altair (spec_epc blk_env) dw_state dw_deposits = Err.
+Proof. exact deposit_count_underflow_refuted. Qed.
+Print Assumptions C03_deposit_count_underflow_refuted.
+
+(* ===================== non-vacuity ===================== *)
+
+(* on a concrete state the Spec accepts a header / exit / deposit satisfying the rules and rejects single-field
+   corruptions; an invalid proof of possession is skipped, not rejected *)
+Example C03_reject_rules_nonvacuous :
+  is_some (process_block_header blk_env Altair rn_state (rn_block 520 0)) = true /\
+    process_block_header blk_env Altair rn_state (rn_block 521 0) = None /\
+    process_block_header blk_env Altair rn_state (rn_block 520 1) = None /\
+    is_some (process_voluntary_exit blk_env Altair rn_state (rn_exit 65 1)) = true /\
+    process_voluntary_exit blk_env Altair rn_state (rn_exit 66 1) = None /\
+    process_voluntary_exit blk_env Altair rn_state (rn_exit 65 2) = None /\
+    process_voluntary_exit deny_env Altair rn_state (rn_exit 65 1) = None /\
+    option_map (fun s : BeaconState => (Datatypes.length (validators s), eth1_deposit_index s))
+      (process_deposit blk_env Altair rn_state rn_deposit) = Some (3%nat, 1) /\
+    option_map (fun s : BeaconState => (Datatypes.length (validators s), eth1_deposit_index s))
+      (process_deposit deny_env Altair rn_state rn_deposit) = Some (2%nat, 1).
+Proof. exact reject_rules_nonvacuous. Qed.
+Print Assumptions C03_reject_rules_nonvacuous.
